@@ -247,6 +247,7 @@ Section Blocked.
     { destruct odd; apply inv_hoare_true; inv_deep Blkf. }
     intros dvi1.
     eapply hoare_bind with (Q1 := fun _ => Blk); [apply inv_hoare_true; inv_deep Blkf|]. intros sh.
+    match goal with |- hoare _ (if ?b then _ else _) _ _ => destruct b end; [apply hoare_panic; auto|].
     match goal with |- hoare _ (if ?b then _ else _) _ _ => destruct b end; [apply hoare_fail; auto|].
     apply hoare_bind_gets_eq. intros s0 Hs0. unfold Blk in Hs0. rewrite Hs0. apply hoare_fail; auto.
   Qed.
